@@ -312,6 +312,10 @@ osm_wait(int *status)
 
 	k = osm.nwait++;
 	__CPROVER_assert(k < OSM_MAXWAIT, "os model: wait tape large enough for the harness");
+	/* a driver that goes back to wait() without terminating the remaining stages can block for ever behind a
+	   writer whose reader is gone */
+	if (osm.term_due & ~osm.termed & live)
+		++osm.late_term;
 	if (osm.unknown_left > 0 && (osm_tape.wait_unknown[k] || live == 0)) {
 		/* a child that the driver did not start (inherited from the program that exec'ed it) */
 		--osm.unknown_left;
